@@ -1,6 +1,7 @@
 #!/bin/bash
 # Builds the whole Coq development from files on disk (offline).  Full .vo build.
 set -e
+/venv/bin/python "$(dirname "$0")/tools/gen_facts.py"
 cd "$(dirname "$0")/coq"
 coq_makefile -f _CoqProject -o Makefile
 timeout 3000 make -j16 2>&1 | grep -v 'conda.cli.condarc' | tail -5
